@@ -1,11 +1,31 @@
-"""C08 -- HTML output is well-formed; document text cannot inject markup."""
-import html
-from urllib.parse import quote
-from vfy.lemma import lemma, P
-from mistletoe.html_renderer import HtmlRenderer
+"""C08 -- HTML output is well-formed; document text cannot inject markup.
 
-SAFE_URL = set("ABCDEFGHIJKLMNOPQRSTUVWXYZabcdefghijklmnopqrstuvwxyz0123456789_.-~" + '/#:()*?=%@+,&;')
+Structural induction over the token tree: leaves are produced by the escaping kernels (H1),
+inner nodes by fixed templates around already well-formed fragments (H2); raw HTML enters
+only through HtmlBlock / HtmlSpan tokens (H3, whole pipeline on tiny documents).
+"""
+import html
+from vfy.lemma import lemma, P
+import vfy.lemma as L
+from vfy.lemmas.common import ALPH14, cp_ok, cp_in, S, all_ok, all_in, ks, fixed, by
+from vfy.plug.stubs import install_quote
+from mistletoe.html_renderer import HtmlRenderer
+from mistletoe import span_token, block_token
+
+ASSUMPTIONS = ['urllib.parse.quote is replaced by a contract stub on symbolic input (safe characters copied, every other '
+               'character -> %XX triplets); the stub is self-tested against the real quote on every non-surrogate code point each run',
+               'Σ excludes lone surrogates (not Unicode scalar values; str.encode rejects them)',
+               'rendered integers (list start) are modelled as an arbitrary non-empty digit string']
+OUTSIDE = ['attribute strings longer than 2 and text longer than 3 characters (the templates interpolate, they do not inspect; kernels are per-character)',
+           'documents longer than the H3 sweep', 'Pygments / contrib renderers (C18 relates them to HtmlRenderer)']
+
 ENTITIES = ('&amp;', '&lt;', '&gt;', '&quot;', '&#x27;')
+VOCAB = ('p', 'h1', 'h2', 'h3', 'h4', 'h5', 'h6', 'blockquote', 'pre', 'code', 'ul', 'ol', 'li', 'table', 'thead',
+         'tbody', 'tr', 'th', 'td', 'hr', 'br', 'em', 'strong', 'del', 'a', 'img')
+VOID = ('hr', 'br', 'img')
+ATTRS = {'a': ('href', 'title'), 'img': ('src', 'alt', 'title'), 'code': ('class',), 'ol': ('start',),
+         'td': ('align',), 'th': ('align',)}
+LOWER = 'abcdefghijklmnopqrstuvwxyz0123456789'
 
 
 def amp_ok(out):
@@ -18,7 +38,134 @@ def amp_ok(out):
     return True
 
 
-def text_kernel_ok(s, out, dq, sq):
+def wf_html(out):
+    """Well-formedness scanner written from the property text: tags only from the renderer's
+    vocabulary, properly nested, void tags written '<x />', attributes from the per-tag list,
+    double-quoted, values without '"', '<', '>'; text without raw '<', '>', and '&' only as the
+    start of one of the five entities."""
+    stack = []
+    i = 0
+    n = len(out)
+    while i < n:
+        c = out[i]
+        if c == '<':
+            i += 1
+            closing = i < n and out[i] == '/'
+            if closing:
+                i += 1
+            j = i
+            while j < n and out[j] in LOWER:
+                j += 1
+            name = out[i:j]
+            if name not in VOCAB:
+                return False
+            i = j
+            if closing:
+                if i >= n or out[i] != '>':
+                    return False
+                if not stack or stack.pop() != name:
+                    return False
+                i += 1
+                continue
+            while True:
+                if i >= n:
+                    return False
+                if out[i] == '>':
+                    if name in VOID:
+                        return False
+                    stack.append(name)
+                    i += 1
+                    break
+                if out.startswith(' />', i):
+                    if name not in VOID:
+                        return False
+                    i += 3
+                    break
+                if out[i] != ' ':
+                    return False
+                i += 1
+                j = i
+                while j < n and out[j] in LOWER:
+                    j += 1
+                if out[i:j] not in ATTRS.get(name, ()):
+                    return False
+                if not out.startswith('="', j):
+                    return False
+                i = j + 2
+                while True:
+                    if i >= n:
+                        return False
+                    ch = out[i]
+                    if ch == '"':
+                        break
+                    if ch == '<' or ch == '>':
+                        return False
+                    i += 1
+                i += 1
+        elif c == '>':
+            return False
+        elif c == '&':
+            if not out.startswith(ENTITIES, i):
+                return False
+            i += 1
+        else:
+            i += 1
+    return not stack
+
+
+# ------------------------------------------------------------------------------- H1 kernels
+
+def _renderer(dq, sq, process_html=False):
+    r = HtmlRenderer.__new__(HtmlRenderer)
+    r.html_escape_double_quotes = dq
+    r.html_escape_single_quotes = sq
+    r._suppress_ptag_stack = [False]
+    r.footnotes = {}
+    r.render_map = {}
+    HtmlRenderer_init_map(r)
+    return r
+
+
+def HtmlRenderer_init_map(r):
+    # the render_map of BaseRenderer.__init__, without touching the global token lists
+    for name in ('Strong', 'Emphasis', 'InlineCode', 'RawText', 'Strikethrough', 'Image', 'Link', 'AutoLink',
+                 'EscapeSequence', 'Heading', 'Quote', 'Paragraph', 'List', 'ListItem', 'Table', 'TableRow',
+                 'TableCell', 'ThematicBreak', 'LineBreak', 'Document', 'HtmlBlock', 'HtmlSpan'):
+        r.render_map[name] = getattr(r, r._cls_to_func(name))
+    r.render_map['SetextHeading'] = r.render_heading
+    r.render_map['CodeFence'] = r.render_block_code
+    r.render_map['BlockCode'] = r.render_block_code
+
+
+_Q4 = [(False, False), (True, False), (False, True), (True, True)]
+
+
+def first_is(c1):
+    """partition on the first code point: one of the five HTML-special characters, or 'other'"""
+    w = P('c1', '*')
+    if w == '*':
+        return True
+    if w == 'other':
+        return c1 != 38 and c1 != 60 and c1 != 62 and c1 != 34 and c1 != 39
+    return c1 == ord(w)
+
+
+@lemma('H1.text', 'C08', quick=ks(2) + by('dq', [False, True], by('sq', [False, True], [{'k': 3}])),
+       thorough=ks(3) + by('dq', [False, True], by('sq', [False, True], by('c1', ['&', '<', '>', '"', "'", 'other'], [{'k': 4}]))),
+       timeout=900, canary=[{'k': 1, 'wrong_oracle': True}],
+       covers=['html_renderer.py:HtmlRenderer.escape_html_text'],
+       note='all strings over Σ of each length k <= N (symbolic code points); both quote options symbolic')
+def h1_text(c1: int, c2: int, c3: int, c4: int, dq: bool, sq: bool) -> bool:
+    """
+    pre: all_ok(cp_ok, P('k'), c1, c2, c3, c4)
+    pre: fixed(dq, 'dq') and fixed(sq, 'sq') and first_is(c1)
+    post: _
+    """
+    s = S(P('k'), c1, c2, c3, c4)
+    r = _renderer(dq, sq)
+    out = r.escape_html_text(s)
+    if P('wrong_oracle', False) and '&' in out:
+        return False
     if '<' in out or '>' in out:
         return False
     if dq and '"' in out:
@@ -28,29 +175,313 @@ def text_kernel_ok(s, out, dq, sq):
     return amp_ok(out)
 
 
-@lemma('H1.text', 'C08', quick=[{'N': 3}], thorough=[{'N': 4, 'timeout': 900}], timeout=240,
-       covers=['html_renderer.py:HtmlRenderer.escape_html_text'])
-def h1_text(s: str, dq: bool, sq: bool) -> bool:
-    """
-    pre: len(s) <= P('N')
-    post: _
-    """
-    r = HtmlRenderer.__new__(HtmlRenderer)
-    r.html_escape_double_quotes = dq
-    r.html_escape_single_quotes = sq
-    out = r.escape_html_text(s)
-    return text_kernel_ok(s, out, dq, sq)
-
-
-@lemma('H1.text.hom', 'C08', quick=[{'N': 2}], thorough=[{'N': 2}], timeout=240,
+@lemma('H1.text.pointwise', 'C08', quick=ks(2), thorough=ks(2) + by('dq', [False, True], by('sq', [False, True], [{'k': 3}])), timeout=900,
        covers=['html_renderer.py:HtmlRenderer.escape_html_text'],
-       note='homomorphism f(a+b)=f(a)+f(b): extends the single-character result to any length')
-def h1_text_hom(a: str, b: str, dq: bool, sq: bool) -> bool:
+       note='f(s) equals the concatenation of f(c) over the characters of s: the kernel is a per-character map, which is what carries the single-character result to longer text')
+def h1_text_pointwise(c1: int, c2: int, c3: int, c4: int, dq: bool, sq: bool) -> bool:
     """
-    pre: len(a) <= P('N') and len(b) <= P('N')
+    pre: all_ok(cp_ok, P('k'), c1, c2, c3, c4)
+    pre: fixed(dq, 'dq') and fixed(sq, 'sq')
     post: _
     """
-    r = HtmlRenderer.__new__(HtmlRenderer)
-    r.html_escape_double_quotes = dq
-    r.html_escape_single_quotes = sq
-    return r.escape_html_text(a + b) == r.escape_html_text(a) + r.escape_html_text(b)
+    s = S(P('k'), c1, c2, c3, c4)
+    r = _renderer(dq, sq)
+    return r.escape_html_text(s) == ''.join([r.escape_html_text(c) for c in s])
+
+
+@lemma('H1.attr', 'C08', quick=ks(3), thorough=ks(4), timeout=300,
+       covers=['html.escape (stdlib, as called for title / language / alt text)'])
+def h1_attr(c1: int, c2: int, c3: int, c4: int) -> bool:
+    """
+    pre: all_ok(cp_ok, P('k'), c1, c2, c3, c4)
+    post: _
+    """
+    out = html.escape(S(P('k'), c1, c2, c3, c4))
+    if '<' in out or '>' in out or '"' in out or "'" in out:
+        return False
+    return amp_ok(out)
+
+
+URL_OUT = 'ABCDEFGHIJKLMNOPQRSTUVWXYZabcdefghijklmnopqrstuvwxyz0123456789_.-~/#:()*?=%@+,;&'
+
+
+@lemma('H1.url', 'C08', quick=ks(3), thorough=ks(4), timeout=300,
+       stubs=['urllib.parse.quote -> contract stub'],
+       covers=['html_renderer.py:HtmlRenderer.escape_url'])
+def h1_url(c1: int, c2: int, c3: int, c4: int) -> bool:
+    """
+    pre: all_ok(cp_ok, P('k'), c1, c2, c3, c4)
+    post: _
+    """
+    install_quote()
+    out = HtmlRenderer.escape_url(S(P('k'), c1, c2, c3, c4))
+    if '<' in out or '>' in out or '"' in out or "'" in out:
+        return False
+    if not amp_ok(out):
+        return False
+    for ch in out:
+        if ch not in URL_OUT:
+            return False
+    return True
+
+
+# ----------------------------------------------------------------------------- H2 templates
+
+def mk(cls, **attrs):
+    t = object.__new__(cls)
+    for k, v in attrs.items():
+        setattr(t, k, v)
+    return t
+
+
+def raw(text):
+    return span_token.RawText(text)
+
+
+class RenderedInt:
+    """an integer of which the renderer only uses `!= 1` and its decimal rendering"""
+    def __init__(self, digits, is_one):
+        self.digits, self.is_one = digits, is_one
+
+    def __ne__(self, other):
+        return not self.is_one
+
+    def __eq__(self, other):
+        return self.is_one
+
+    def __format__(self, spec):
+        return self.digits
+
+    def __str__(self):
+        return self.digits
+
+
+def holes(names, N):
+    """one job per (attribute that is symbolic, its exact length); the others are concrete"""
+    return [{'hole': h, 'k': k} for h in names for k in range(N + 1)]
+
+
+def hole(name, default, c1, c2, c3):
+    """the symbolic string if this attribute is the job's hole, else a benign concrete value"""
+    return S(P('k'), c1, c2, c3) if P('hole') == name else default
+
+
+@lemma('H2.link', 'C08', quick=holes(['target', 'title', 'text'], 2), thorough=holes(['target', 'title', 'text'], 3), timeout=400,
+       stubs=['urllib.parse.quote -> contract stub', 'token built directly'],
+       covers=['html_renderer.py:HtmlRenderer.render_link', 'html_renderer.py:HtmlRenderer.escape_url'])
+def h2_link(c1: int, c2: int, c3: int, dq: bool, sq: bool) -> bool:
+    """
+    pre: all_ok(cp_ok, P('k'), c1, c2, c3)
+    post: _
+    """
+    install_quote()
+    r = _renderer(dq, sq)
+    tok = mk(span_token.Link, target=hole('target', '/u', c1, c2, c3), title=hole('title', 't', c1, c2, c3),
+             children=[raw(hole('text', 'x', c1, c2, c3))])
+    return wf_html(r.render(tok))
+
+
+@lemma('H2.image', 'C08', quick=holes(['src', 'title', 'alt'], 2), thorough=holes(['src', 'title', 'alt'], 3), timeout=400,
+       stubs=['urllib.parse.quote -> contract stub', 'token built directly'],
+       covers=['html_renderer.py:HtmlRenderer.render_image', 'html_renderer.py:HtmlRenderer.render_to_plain'])
+def h2_image(c1: int, c2: int, c3: int, dq: bool, sq: bool) -> bool:
+    """
+    pre: all_ok(cp_ok, P('k'), c1, c2, c3)
+    post: _
+    """
+    install_quote()
+    r = _renderer(dq, sq)
+    tok = mk(span_token.Image, src=hole('src', '/u', c1, c2, c3), title=hole('title', 't', c1, c2, c3),
+             children=[mk(span_token.Emphasis, children=[raw(hole('alt', 'x', c1, c2, c3))])])
+    return wf_html(r.render(tok))
+
+
+ADDR = "ABCDEFGHIJKLMNOPQRSTUVWXYZabcdefghijklmnopqrstuvwxyz0123456789.!#$%&'*+/=?^_`{|}~-@"
+
+
+def autolink_cp(c, mailto):
+    """what AutoLink.pattern can deliver: no space, '<', '>'; e-mail targets use the address alphabet only"""
+    if c == 32 or c == 60 or c == 62:
+        return False
+    if mailto:
+        return cp_in(c, ADDR)
+    return cp_ok(c)
+
+
+@lemma('H2.autolink', 'C08', quick=by('mailto', [False, True], [{'k': 1}, {'k': 2}]), thorough=by('mailto', [False, True], [{'k': 1}, {'k': 2}, {'k': 3}]), timeout=900,
+       stubs=['urllib.parse.quote -> contract stub', 'token built directly'],
+       covers=['html_renderer.py:HtmlRenderer.render_auto_link'])
+def h2_autolink(c1: int, c2: int, c3: int, mailto: bool, dq: bool, sq: bool) -> bool:
+    """
+    pre: fixed(mailto, 'mailto')
+    pre: autolink_cp(c1, mailto) and (P('k') < 2 or autolink_cp(c2, mailto)) and (P('k') < 3 or autolink_cp(c3, mailto))
+    post: _
+    """
+    install_quote()
+    r = _renderer(dq, sq)
+    target = S(P('k'), c1, c2, c3)
+    tok = mk(span_token.AutoLink, target=target, mailto=mailto, children=(raw(target),))
+    return wf_html(r.render(tok))
+
+
+@lemma('H2.code', 'C08', quick=holes(['language', 'content'], 2), thorough=holes(['language', 'content'], 3), timeout=400,
+       stubs=['tokens built directly'],
+       covers=['html_renderer.py:HtmlRenderer.render_inline_code', 'html_renderer.py:HtmlRenderer.render_block_code'])
+def h2_code(c1: int, c2: int, c3: int, fenced: bool, dq: bool, sq: bool) -> bool:
+    """
+    pre: all_ok(cp_ok, P('k'), c1, c2, c3)
+    post: _
+    """
+    r = _renderer(dq, sq)
+    content = hole('content', 'x\n', c1, c2, c3)
+    ic = mk(span_token.InlineCode, children=(raw(content),))
+    if fenced:
+        bc = mk(block_token.CodeFence, language=hole('language', 'py', c1, c2, c3), children=(raw(content),))
+    else:
+        bc = mk(block_token.BlockCode, language='', children=(raw(content),))
+    return wf_html(r.render(ic)) and wf_html(r.render(bc))
+
+
+@lemma('H2.inline', 'C08', quick=by('kind', [0, 1, 2, 3, 4], [{'k': 1}, {'k': 2}]), thorough=by('kind', [0, 1, 2, 3, 4], [{'k': 1}, {'k': 2}, {'k': 3}]), timeout=600, stubs=['tokens built directly'],
+       covers=['html_renderer.py:HtmlRenderer.render_strong', 'html_renderer.py:HtmlRenderer.render_emphasis',
+               'html_renderer.py:HtmlRenderer.render_strikethrough', 'html_renderer.py:HtmlRenderer.render_escape_sequence',
+               'html_renderer.py:HtmlRenderer.render_line_break', 'html_renderer.py:HtmlRenderer.render_raw_text'])
+def h2_inline(kind: int, c1: int, c2: int, c3: int, soft: bool, dq: bool, sq: bool) -> bool:
+    """
+    pre: kind == P('kind') and all_ok(cp_ok, P('k'), c1, c2, c3)
+    post: _
+    """
+    r = _renderer(dq, sq)
+    text = S(P('k'), c1, c2, c3)
+    if kind == 0:
+        tok = mk(span_token.Strong, children=[raw(text)])
+    elif kind == 1:
+        tok = mk(span_token.Emphasis, children=[raw(text)])
+    elif kind == 2:
+        tok = mk(span_token.Strikethrough, children=[raw(text)])
+    elif kind == 3:
+        tok = mk(span_token.EscapeSequence, children=(raw(text),))
+    else:
+        tok = mk(span_token.Emphasis, children=[raw(text), mk(span_token.LineBreak, soft=soft, content=''), raw('y')])
+    return wf_html(r.render(tok))
+
+
+def _para(text):
+    return mk(block_token.Paragraph, children=[raw(text)])
+
+
+def digit_cp(c):
+    return 48 <= c <= 57
+
+
+@lemma('H2.blocks', 'C08', quick=[{'kind': k} for k in range(6)], timeout=300, stubs=['tokens built directly', 'RenderedInt for List.start'],
+       covers=['html_renderer.py:HtmlRenderer.render_heading', 'html_renderer.py:HtmlRenderer.render_quote',
+               'html_renderer.py:HtmlRenderer.render_paragraph', 'html_renderer.py:HtmlRenderer.render_list',
+               'html_renderer.py:HtmlRenderer.render_list_item', 'html_renderer.py:HtmlRenderer.render_thematic_break',
+               'html_renderer.py:HtmlRenderer.render_document', 'html_renderer.py:HtmlRenderer.render_table',
+               'html_renderer.py:HtmlRenderer.render_table_row', 'html_renderer.py:HtmlRenderer.render_table_cell'])
+def h2_blocks(c1: int, level: int, d1: int, d2: int, is_one: bool, ordered: bool, loose: bool, nkids: int,
+              align: int, header: bool) -> bool:
+    """
+    pre: cp_ok(c1) and 1 <= level <= 6 and 0 <= nkids <= 2 and -1 <= align <= 1
+    pre: digit_cp(d1) and digit_cp(d2)
+    post: _
+    """
+    kind = P('kind')
+    r = _renderer(False, False)
+    text = chr(c1)
+    kids = [_para(text) for _ in range(nkids)]
+    if kind == 0:
+        tok = mk(block_token.Heading, level=level, children=[raw(text)])
+    elif kind == 1:
+        tok = mk(block_token.Quote, children=kids)
+    elif kind == 2:
+        items = [mk(block_token.ListItem, children=list(kids), loose=loose, leader='-', prepend=2, indentation=0),
+                 mk(block_token.ListItem, children=[], loose=loose, leader='-', prepend=2, indentation=0)]
+        tok = mk(block_token.List, children=items, loose=loose,
+                 start=RenderedInt(chr(d1) + chr(d2), is_one) if ordered else None)
+    elif kind == 3:
+        tok = mk(block_token.Document, children=kids + [mk(block_token.ThematicBreak, line='---')], footnotes={})
+    elif kind == 4:
+        al = None if align < 0 else align
+        cell = mk(block_token.TableCell, align=al, children=[raw(text)])
+        row = mk(block_token.TableRow, row_align=[al], children=[cell])
+        tok = mk(block_token.Table, column_align=[al], children=[row] * nkids)
+        if header:
+            tok.header = row
+    else:
+        item = mk(block_token.ListItem, children=[_para(text), mk(block_token.Quote, children=[_para(text)])][:nkids],
+                  loose=loose, leader='-', prepend=2, indentation=0)
+        tok = mk(block_token.List, children=[item], loose=loose, start=None)
+    out = r.render(tok)
+    return wf_html(out) and r._suppress_ptag_stack == [False]
+
+
+# -------------------------------------------------------------- H3 whole pipeline, tiny documents
+
+def strip_raw_html(doc, out):
+    """set aside the verbatim content of raw HTML blocks and spans (process_html_tokens=True):
+    returns the output with each HtmlBlock/HtmlSpan content removed once, or None"""
+    from mistletoe.utils import traverse
+    for res in traverse(doc):
+        t = res.node
+        if type(t).__name__ in ('HtmlBlock', 'HtmlSpan'):
+            c = t.content
+            i = out.find(c)
+            if i < 0:
+                return None
+            out = out[:i] + out[i + len(c):]
+    return out
+
+
+H3_ALPH = ALPH14 + '<&"'
+
+
+@lemma('H3.pipeline.sigma', 'C08', quick=[{'k': 1, 'html': False}, {'k': 1, 'html': True}],
+       thorough=[{'k': k, 'html': h, 'timeout': 3000} for k in (1, 2) for h in (False, True)], timeout=400, per_path=60,
+       stubs=['urllib.parse.quote -> contract stub'],
+       covers=['block_token.py:Document.__init__', 'html_renderer.py:HtmlRenderer.render_document'],
+       note='whole parse-and-render on every document of k characters over Σ')
+def h3_sigma(c1: int, c2: int, dq: bool, sq: bool) -> bool:
+    """
+    pre: all_ok(cp_ok, P('k'), c1, c2)
+    post: _
+    """
+    return _h3(S(P('k'), c1, c2), dq, sq, P('html'))
+
+
+@lemma('H3.pipeline.alph', 'C08', quick=by('c1', list(H3_ALPH), [{'k': 2, 'html': False, 'dq': False, 'sq': False}, {'k': 2, 'html': True, 'dq': False, 'sq': False}]),
+       thorough=by('c1', list(H3_ALPH), [{'k': 2, 'html': False}, {'k': 2, 'html': True}, {'k': 3, 'html': False, 'dq': True, 'sq': False, 'timeout': 3000}, {'k': 3, 'html': True, 'dq': False, 'sq': True, 'timeout': 3000}]),
+       timeout=600, per_path=60, stubs=['urllib.parse.quote -> contract stub'],
+       covers=['block_token.py:Document.__init__', 'html_renderer.py:HtmlRenderer.render_document'],
+       note='whole parse-and-render on every document of k characters over the 17 Markdown/HTML-significant characters')
+def h3_alph(c1: int, c2: int, c3: int, dq: bool, sq: bool) -> bool:
+    """
+    pre: all_in(H3_ALPH, P('k'), c1, c2, c3)
+    pre: fixed(c1, 'c1') and fixed(dq, 'dq') and fixed(sq, 'sq')
+    post: _
+    """
+    return _h3(S(P('k'), c1, c2, c3), dq, sq, P('html'))
+
+
+def _h3(s, dq, sq, process_html):
+    from mistletoe import Document
+    install_quote()
+    with HtmlRenderer(html_escape_double_quotes=dq, html_escape_single_quotes=sq,
+                      process_html_tokens=process_html) as r:
+        doc = Document(s)
+        out = r.render(doc)
+    if process_html:
+        out = strip_raw_html(doc, out)
+        if out is None:
+            return False
+    return wf_html(out)
+
+
+# ------------------------------------------------------------------ recorded findings / witnesses
+
+def witness_image_src():
+    """(fixed) image source written unescaped: ![a](x"onerror="alert(1)) closed the src attribute"""
+    import mistletoe
+    out = mistletoe.markdown('![a](x"onerror="alert(1))')
+    return (not wf_html(out)) or 'onerror="' in out, 'markdown(\'![a](x"onerror="alert(1))\') = %r' % out
